@@ -82,10 +82,10 @@ def main():
     na = [{"property_id": k, "reason": v} for k,v in sorted({**PURE, **PENDING}.items())]
     m = {
         "version": 1,
-        "setup_cmd": "cd /verif/sim && CARGO_NET_OFFLINE=true RUSTFLAGS='--cfg edp_verif' cargo build --profile sim --offline && cd /verif/c16_shuttle && CARGO_NET_OFFLINE=true RUSTFLAGS='--cfg edp_verif_shuttle' cargo build --profile sim --offline",
+        "setup_cmd": "cd /verif/sim && CARGO_NET_OFFLINE=true RUSTFLAGS='--cfg edp_verif --cfg tokio_unstable' cargo build --profile sim --offline && cd /verif/c16_shuttle && CARGO_NET_OFFLINE=true RUSTFLAGS='--cfg edp_verif_shuttle' cargo build --profile sim --offline",
         "hooks": {
             "guard": "edp_verif",
-            "enable": "RUSTFLAGS='--cfg edp_verif' (set by /verif/check and /verif/sim/.cargo/config.toml); C16 additionally builds shadow manifests with --cfg edp_verif_shuttle",
+            "enable": "RUSTFLAGS='--cfg edp_verif --cfg tokio_unstable' (the second flag only opens tokio's runtime seed API for the simulator; set by /verif/check and /verif/sim/.cargo/config.toml); C16 additionally builds shadow manifests with --cfg edp_verif_shuttle",
             "baseline_off_cmd": "cd /repo && cargo nextest run --workspace --no-fail-fast --tool-config-file pb:/w/lib/nextest.toml --profile pb --test-threads 8 --offline",
             "source_commits": [h.split()[0] for h in hooks],
             "add_only": True,
